@@ -6,6 +6,7 @@
 package c08
 
 import (
+	"math"
 	"encoding/json"
 	"fmt"
 	"sort"
@@ -91,6 +92,21 @@ func ucLock(k *chain.Keys, T uint64) types.UnlockConditions {
 
 const maxH = 14
 
+// farLocks are lock values far beyond any reachable height (a comparison through a signed difference or a narrower
+// integer would treat them as reached); they are probed at every height and must always be rejected.
+var farLocks = []uint64{1<<31 + 3, 1<<32 + 3, 1<<63 - 1, 1 << 63, 1<<63 + 7, math.MaxUint64 - 1, math.MaxUint64}
+
+func lockValues() []uint64 {
+	var ts []uint64
+	for T := uint64(1); T <= maxH; T++ {
+		ts = append(ts, T)
+	}
+	return append(ts, farLocks...)
+}
+
+// farInstants: after(t) with t far in the future must be rejected at every height, far in the past accepted.
+var farInstants = []int64{-62167219200, -1, 0, 1 << 31, 1<<32 + 5, 253402300799}
+
 func alloc(n chain.NetSpec) func(k *chain.Keys) chain.GenesisAlloc {
 	return func(k *chain.Keys) chain.GenesisAlloc {
 		g := chain.DefaultAlloc(k)
@@ -98,11 +114,14 @@ func alloc(n chain.NetSpec) func(k *chain.Keys) chain.GenesisAlloc {
 			g.SC = append(g.SC, types.SiacoinOutput{Value: types.Siacoins(uint32(500 + i)), Address: k.Addr([]int{chain.AddrV1, chain.AddrV2, chain.AddrACS}[i%3])})
 		}
 		ts := plannedTimes(n, maxH+2)
-		for T := uint64(1); T <= maxH; T++ {
+		for i, T := range lockValues() {
 			// timelocked unlock conditions: two outputs each (v1 spender, v2 legacy-policy spender)
 			a := ucLock(k, T).UnlockHash()
-			g.SC = append(g.SC, types.SiacoinOutput{Value: types.Siacoins(uint32(20 + T)), Address: a}, types.SiacoinOutput{Value: types.Siacoins(uint32(40 + T)), Address: a})
-			g.SC = append(g.SC, types.SiacoinOutput{Value: types.Siacoins(uint32(60 + T)), Address: types.PolicyAbove(T).Address()})
+			g.SC = append(g.SC, types.SiacoinOutput{Value: types.Siacoins(uint32(21 + i)), Address: a}, types.SiacoinOutput{Value: types.Siacoins(uint32(41 + i)), Address: a})
+			g.SC = append(g.SC, types.SiacoinOutput{Value: types.Siacoins(uint32(61 + i)), Address: types.PolicyAbove(T).Address()})
+		}
+		for i, s := range farInstants {
+			g.SC = append(g.SC, types.SiacoinOutput{Value: types.Siacoins(uint32(120 + i)), Address: types.PolicyAfter(time.Unix(s, 0)).Address()})
 		}
 		for p := uint64(1); p <= maxH; p++ {
 			m := refMedian(ts, p)
@@ -116,13 +135,19 @@ func alloc(n chain.NetSpec) func(k *chain.Keys) chain.GenesisAlloc {
 			g.SF = append(g.SF, types.SiafundOutput{Value: 1, Address: a})
 			sf++
 		}
-		for T := uint64(1); T <= maxH; T++ {
+		for _, T := range lockValues() {
 			addSF(ucLock(k, T).UnlockHash())
 			addSF(types.PolicyAbove(T).Address())
+			if T > maxH {
+				continue
+			}
 			m := refMedian(ts, T)
 			for d := -1; d <= 1; d++ {
 				addSF(types.PolicyAfter(m.Add(time.Duration(d) * time.Second)).Address())
 			}
+		}
+		for _, s := range farInstants {
+			addSF(types.PolicyAfter(time.Unix(s, 0)).Address())
 		}
 		g.SF[0].Value -= sf
 		return g
@@ -250,17 +275,17 @@ func (r *runner) lockedContractsTxn(w *chain.World) (chain.Use, bool) {
 	h := w.ChildHeight()
 	payout := types.Siacoins(10)
 	bc := w.NewBlockCtx()
-	p, ok := bc.PickSC(func(cl int) bool { return cl == chain.AddrV1 }, payout.Mul64(maxH).Add(chain.Fee))
+	p, ok := bc.PickSC(func(cl int) bool { return cl == chain.AddrV1 }, payout.Mul64(uint64(len(lockValues()))).Add(chain.Fee))
 	if !ok {
 		return chain.Use{}, false
 	}
 	tax := chain.CurOf(chain.RefTaxV1(w.Net, h, payout))
 	t := types.Transaction{SiacoinInputs: []types.SiacoinInput{{ParentID: p.ID, UnlockConditions: k.StdUC(0)}}, MinerFees: []types.Currency{chain.Fee},
-		SiacoinOutputs: []types.SiacoinOutput{{Value: p.SiacoinOutput.Value.Sub(payout.Mul64(maxH)).Sub(chain.Fee), Address: k.Addr(chain.AddrV1)}}}
-	for T := uint64(1); T <= maxH; T++ {
+		SiacoinOutputs: []types.SiacoinOutput{{Value: p.SiacoinOutput.Value.Sub(payout.Mul64(uint64(len(lockValues())))).Sub(chain.Fee), Address: k.Addr(chain.AddrV1)}}}
+	for _, T := range lockValues() {
 		out := []types.SiacoinOutput{{Value: payout.Sub(tax), Address: k.Addr(chain.AddrV1)}}
 		t.FileContracts = append(t.FileContracts, types.FileContract{WindowStart: maxH + 3, WindowEnd: maxH + 5, Payout: payout,
-			ValidProofOutputs: out, MissedProofOutputs: out, UnlockHash: ucLock(k, T).UnlockHash(), RevisionNumber: T})
+			ValidProofOutputs: out, MissedProofOutputs: out, UnlockHash: ucLock(k, T).UnlockHash(), RevisionNumber: T % 1000})
 	}
 	w.SignV1Whole(&t)
 	return chain.Use{Name: "locked-contracts", V1: &t, SuppSC: []types.SiacoinElement{p}}, true
@@ -301,8 +326,8 @@ func (r *runner) locks() {
 		if p, ok := bc.PickSC(func(cl int) bool { return cl == chain.AddrV2 }, types.Siacoins(100)); ok {
 			r.probe(w, "v2 transaction from v2 allow height", 0, int64(r.spec.Allow), w.UseV2SC(p, 1), h >= r.spec.Allow)
 		}
-		for T := uint64(1); T <= maxH; T++ {
-			if T+2 < h || T > h+2 {
+		for _, T := range lockValues() {
+			if T <= maxH && (T+2 < h || T > h+2) {
 				continue
 			}
 			uc := ucLock(k, T)
@@ -380,6 +405,23 @@ func (r *runner) locks() {
 				}
 			}
 		}
+		// after(t) far from the median (both directions), on siacoin and siafund inputs
+		if r.v2ok(h) {
+			m := refMedian(ts, h)
+			for _, s := range farInstants {
+				pol := types.PolicyAfter(time.Unix(s, 0))
+				if p, ok := findSC(w, pol.Address(), 0); ok {
+					t := types.V2Transaction{SiacoinInputs: []types.V2SiacoinInput{{Parent: p.Copy(), SatisfiedPolicy: types.SatisfiedPolicy{Policy: pol}}},
+						SiacoinOutputs: []types.SiacoinOutput{{Value: p.SiacoinOutput.Value, Address: k.Addr(chain.AddrV2)}}}
+					r.probe(w, "v2 after(t) policy (median of last 11 timestamps, strict)", 0, s, chain.Use{Name: "after-far", V2: &t}, m.Unix() > s)
+				}
+				if p, ok := findSF(w, pol.Address()); ok {
+					t := types.V2Transaction{SiafundInputs: []types.V2SiafundInput{{Parent: p.Copy(), ClaimAddress: k.Addr(chain.AddrV2), SatisfiedPolicy: types.SatisfiedPolicy{Policy: pol}}},
+						SiafundOutputs: []types.SiafundOutput{{Value: p.SiafundOutput.Value, Address: k.Addr(chain.AddrV2)}}}
+					r.probe(w, "v2 after(t) policy on a siafund input (median of last 11 timestamps, strict)", 0, s, chain.Use{Name: "after-far-sf", V2: &t}, m.Unix() > s)
+				}
+			}
+		}
 		// formation rules at this height
 		if r.v1ok(h) {
 			for _, ws := range []uint64{h - 1, h, h + 1} {
@@ -406,8 +448,8 @@ func (r *runner) locks() {
 				if !r.mine(w, u) {
 					return
 				}
-				for T := uint64(1); T <= maxH; T++ {
-					locked[T] = u.V1.FileContractID(int(T - 1))
+				for i, T := range lockValues() {
+					locked[T] = u.V1.FileContractID(i)
 				}
 				continue
 			}
